@@ -255,6 +255,108 @@ def progressive(ctx, xh):
     ctx.coverage["traces_validated_against_impl"] += len(lines)
 
 
+XSD = ("<xs:schema xmlns:xs='http://www.w3.org/2001/XMLSchema' targetNamespace='%s' elementFormDefault='qualified'>"
+       + "".join("<xs:element name='%s'><xs:complexType mixed='true'><xs:sequence><xs:any minOccurs='0' maxOccurs='unbounded' "
+                 "processContents='lax'/></xs:sequence><xs:anyAttribute processContents='lax'/></xs:complexType></xs:element>" % n
+                 for n in ("a", "b", "c")) + "</xs:schema>")
+
+
+def ns_names(ctx, xh):
+    """the SAME expanded name under different prefixes (and prefixed versus default-namespace spelling) within one
+    document and across consecutive parses on cached parsers: the qualified name reported (SAX1, SAX2 qName, DOM
+    nodeName) must be the one the tag spells, SAX2 uri/localName and DOM namespaceURI/localName the expanded name; all
+    scanners with namespaces on, and IG / SG with schema processing against a trivial schema declaring the elements
+    (where element declarations are shared per expanded name)"""
+    rng = ctx.rng
+    H = lambda t: "".join("%04X" % ord(c) for c in t)
+    uris = ["urn:x", "urn:y"]
+    docs = []
+    for k in range(40 if ctx.tier == "quick" else 1500):
+        binds = {"p": "urn:x", "q": "urn:x", "r": "urn:y", "s": "urn:y"}
+        out = []
+        exp = []      # (qname, attrs[(qname, value)], uri, local)  | ("E", qname)
+
+        def elem(depth, default_ns, root=False):
+            local = rng.choice("abc")
+            uri = "urn:x" if root else rng.choice(uris + uris + [default_ns])
+            attrs = []
+            spell_default = False
+            if uri == "":
+                q = local
+                if default_ns != "":
+                    attrs.append(("xmlns", ""))
+                    default_ns = ""
+            else:
+                cands = [p for p, u in binds.items() if u == uri]
+                if rng.random() < 0.3:
+                    q = local
+                    if default_ns != uri:
+                        attrs.append(("xmlns", uri))
+                        default_ns = uri
+                else:
+                    q = rng.choice(cands) + ":" + local
+            if root:
+                attrs += [("xmlns:" + p, u) for p, u in binds.items()]
+                attrs.append(("xmlns:xsi", "http://www.w3.org/2001/XMLSchema-instance"))
+                attrs.append(("xsi:schemaLocation", "urn:x x.xsd urn:y y.xsd"))
+            if rng.random() < 0.3:
+                attrs.append((rng.choice(list(binds)) + ":t", "1"))
+            if rng.random() < 0.2:
+                attrs.append(("u", "2"))
+            out.append("<" + q + "".join(" %s='%s'" % a for a in attrs) + ">")
+            exp.append((q, attrs, uri, local))
+            for _ in range(rng.choice([0, 1, 2, 3]) if depth < 3 else 0):
+                elem(depth + 1, default_ns)
+            out.append("</" + q + ">")
+            exp.append(("E", q))
+        elem(0, "", root=True)
+        docs.append(("".join(out), exp))
+    res = " x.xsd=%s y.xsd=%s" % ((XSD % "urn:x").encode().hex().upper(), (XSD % "urn:y").encode().hex().upper())
+
+    def expected(exp, api):
+        toks = []
+        for e in exp:
+            if e[0] == "E":
+                toks.append("E" + H(e[1]))
+                continue
+            q, attrs, uri, local = e
+            at = sorted(attrs, key=lambda a: [ord(c) for c in a[0]])
+            t = "S" + H(q) + "".join(",%s=%s" % (H(a), H(v)) for a, v in at)
+            if api != "sax":
+                t += "#%s#%s" % (H(uri), H(local))
+            toks.append(t)
+        return " ".join(toks)
+    lines, meta = [], []
+    for k, (doc, exp) in enumerate(docs):
+        bx = doc.encode().hex().upper()
+        for a in C02.APIS:
+            for sc in C02.SCANNERS:
+                lines.append("parse %s %s 1 %s n%s" % (a, sc, bx, res))
+                meta.append((k, a, sc, "n"))
+            for sc in ("IG", "SG"):
+                lines.append("parse %s %s 1 %s ns%s" % (a, sc, bx, res))
+                meta.append((k, a, sc, "ns"))
+    out = C02.run_lines(xh, lines, jobs=1)       # one process: consecutive parses share the cached parsers
+    nbad = 0
+    for (k, a, sc, fl), req, o in zip(meta, lines, out):
+        ctx.count()
+        ctx.distinct(("nsnames", k, a, sc, fl))
+        ev, errs, fh = C02.parse_impl(o)
+        want = expected(docs[k][1], a)
+        errs = [e for e in errs if not e.startswith("W:")]
+        if errs or ev != want:
+            nbad += 1
+            if nbad <= 4:
+                ctx.violation("ns-names", {
+                    "what": "%s/%s flags=%s: the names reported differ from the document text (qualified name as spelled "
+                            "in the tag, expanded name = namespace bound to its prefix + local part)%s"
+                            % (a, sc, fl, "; errors: %s" % errs[:2] if errs else ""),
+                    "request": req, "impl": [ev, errs, fh], "expect": {"fatal": False, "events": want}, "tag": "ns-names",
+                    "document": docs[k][0]})
+    ctx.coverage["ns_name_documents"] = len(docs)
+    ctx.coverage["traces_validated_against_impl"] += len(lines)
+
+
 def remerge(ev):
     out = []
     for t in ev.split(" "):
@@ -341,6 +443,7 @@ def run(ctx):
                                          "request": lines[idx.index((k, a, s, ns))], "impl": ev, "model": ml}, no_input=True)
     large_eol(ctx, xh, xm3)
     progressive(ctx, xh)
+    ns_names(ctx, xh)
     ctx.coverage["attnorm_cases"] = len(vals)
     ctx.coverage["traces_validated_against_impl"] += len(lines)
     ctx.coverage["rule"] += ("; attribute normalisation: %d raw values x {NMTOKENS, CDATA} x {IG, DG} x namespaces x 4 APIs "
